@@ -537,3 +537,188 @@ fn block_below_the_first_known_block_changes_nothing() {
         Err(_) => panic!("scenario did not finish within 180 s"),
     }
 }
+
+/// C05: the tip never moves to a chain that has a window of six consecutive blocks with fewer than two golden tickets.
+/// Chain 1..10 with a ticket in every even block; a side chain on block 7 whose tickets are placed by `pattern`.
+/// Whenever the tip sits on a side-chain block, every six-block window of the chain below it must hold two tickets.
+#[test]
+#[serial_test::serial]
+fn tip_never_moves_to_a_chain_with_a_sparse_window() {
+    let (tx_done, rx_done) = std::sync::mpsc::channel::<Option<String>>();
+    std::thread::spawn(move || {
+        let rt = tokio::runtime::Builder::new_current_thread().enable_all().build().unwrap();
+        rt.block_on(async move {
+            // tickets of the side chain blocks 8', 9', …
+            // (length of the main chain, tickets of the side chain blocks 8', 9', …)
+            let patterns: Vec<(u64, Vec<bool>)> = vec![
+                (10, vec![false, false, false, false]),                            // 8'..11': the window ending at 11' holds one ticket
+                // 8'..21' against a main chain of 20: the side chain overtakes only at 21', whose own window holds three
+                // tickets — but 8'..18' hold none
+                (20, vec![false, false, false, false, false, false, false, false, false, false, false, true, true, true]),
+            ];
+            for (main_len, pattern) in patterns.iter() {
+                let main_len = *main_len;
+                let mut t = TestManager::default();
+                t.initialize(100, 200_000_000_000_000).await;
+                let (b1, ts) = { let bc = t.blockchain_lock.read().await; let b = bc.get_latest_block().unwrap(); (b.hash, b.timestamp) };
+                let mut main = vec![b1];
+                for id in 2..=main_len {
+                    let mut b = t.create_block(*main.last().unwrap(), ts + (id - 1) * 120000, 1, 0, 0, id % 2 == 0).await; b.generate().unwrap();
+                    main.push(b.hash); t.add_block(b).await;
+                }
+                assert_eq!(t.blockchain_lock.read().await.get_latest_block_id(), main_len, "setup: main chain");
+                let mut parent = main[6];
+                let mut side: Vec<SaitoHash> = vec![];
+                for (k, gt) in pattern.iter().enumerate() {
+                    let id = 8 + k as u64;
+                    let mut b = t.create_block(parent, ts + (id - 1) * 120000 + 1000, 1, 0, 0, *gt).await; b.generate().unwrap();
+                    parent = b.hash; side.push(b.hash);
+                    let prev_of_b = b.previous_block_hash;
+                    let r = t.add_block(b).await;
+                    let bc = t.blockchain_lock.read().await;
+                    let tip = bc.get_latest_block_hash();
+                    if std::env::var("VERIF_TRACE").is_ok() { println!("TRACE side block {} gt={} -> tip {} on side: {} ; window rule says {} ; result {}", id, gt, bc.get_latest_block_id(), side.contains(&tip), bc.is_golden_ticket_count_valid(prev_of_b, *gt, false, false),
+                        match r { AddBlockResult::BlockAddedSuccessfully(_, lc, _) => format!("added lc={}", lc), AddBlockResult::BlockAlreadyExists => "exists".to_string(), AddBlockResult::FailedButRetry(..) => "retry".to_string(), AddBlockResult::FailedNotValid => "not valid".to_string() }); }
+                    if side.contains(&tip) {
+                        // walk the adopted chain down from the tip and count tickets in every window of six
+                        let mut chain: Vec<(u64, bool)> = vec![];
+                        let mut h = tip;
+                        while let Some(blk) = bc.blocks.get(&h) { chain.push((blk.id, blk.has_golden_ticket)); h = blk.previous_block_hash; }
+                        for w in chain.windows(6) {
+                            let tickets = w.iter().filter(|x| x.1).count();
+                            if tickets < 2 {
+                                let _ = tx_done.send(Some(format!("main chain 1..{} (tickets in even blocks), side chain on block 7 with tickets {:?}: after side block {} the tip is {} on the side chain although blocks {}..{} of that chain hold {} golden ticket(s)",
+                                    main_len, pattern, id, bc.get_latest_block_id(), w.last().unwrap().0, w[0].0, tickets)));
+                                return;
+                            }
+                        }
+                    }
+                }
+            }
+            let _ = tx_done.send(None);
+        });
+    });
+    match rx_done.recv_timeout(std::time::Duration::from_secs(240)) {
+        Ok(None) => {}
+        Ok(Some(w)) => witness(w),
+        Err(_) => panic!("scenario did not finish within 240 s"),
+    }
+}
+
+/// C03: after a reorganisation that reaches below the pruning horizon (blocks more than a few below the tip keep only
+/// their header in memory) the spendable set equals what a second node gets by applying the winning chain from
+/// genesis. Main chain 1..11 with payments, fork 2-3'-…-12' takes over.
+#[test]
+#[serial_test::serial]
+fn reorg_below_the_pruning_horizon_matches_a_replay() {
+    let (tx_done, rx_done) = std::sync::mpsc::channel::<Option<String>>();
+    std::thread::spawn(move || {
+        let rt = tokio::runtime::Builder::new_current_thread().enable_all().build().unwrap();
+        rt.block_on(async move {
+            let mut t = TestManager::default();
+            t.initialize(100, 200_000_000_000_000).await;
+            let genesis = { let bc = t.blockchain_lock.read().await; bc.get_latest_block().unwrap().clone() };
+            let (b1, ts) = (genesis.hash, genesis.timestamp);
+            let mut main: Vec<Block> = vec![];
+            let mut prev = b1;
+            for id in 2..=11u64 {
+                let mut b = if id % 2 == 0 { t.create_block(prev, ts + (id - 1) * 120000, 0, 0, 0, true).await } else { t.create_block(prev, ts + (id - 1) * 120000, 1, 1_000_000, 0, false).await };
+                b.generate().unwrap(); prev = b.hash; main.push(b.clone()); t.add_block(b).await;
+            }
+            assert_eq!(t.blockchain_lock.read().await.get_latest_block_id(), 11, "setup: main chain of eleven blocks");
+            let pruned = { let bc = t.blockchain_lock.read().await; main.iter().filter(|b| bc.blocks.get(&b.hash).map(|x| x.block_type != BlockType::Full).unwrap_or(false)).map(|b| b.id).collect::<Vec<_>>() };
+            // the fork leaves the main chain after block 2
+            let mut fork: Vec<Block> = vec![];
+            let mut prev = main[0].hash;
+            // (its blocks move no value: the test wallet's slips belong to the main chain)
+            for id in 3..=12u64 {
+                let mut b = if id % 2 == 1 { t.create_block(prev, ts + (id - 1) * 120000, 0, 0, 0, true).await } else { t.create_block(prev, ts + (id - 1) * 120000, 1, 0, 0, false).await };
+                b.generate().unwrap(); prev = b.hash; fork.push(b.clone()); t.add_block(b).await;
+            }
+            if t.blockchain_lock.read().await.get_latest_block_hash() != prev { panic!("setup: the fork was not adopted (tip {})", t.blockchain_lock.read().await.get_latest_block_id()); }
+            {
+                // the on-chain flags describe the winning chain: set on 1, 2, 3'..12', cleared on the abandoned 3..11
+                let bc = t.blockchain_lock.read().await;
+                let wrong_on: Vec<u64> = main.iter().skip(1).filter(|b| bc.blocks.get(&b.hash).map(|x| x.in_longest_chain).unwrap_or(false)).map(|b| b.id).collect();
+                let wrong_off: Vec<u64> = fork.iter().filter(|b| !bc.blocks.get(&b.hash).map(|x| x.in_longest_chain).unwrap_or(false)).map(|b| b.id).collect();
+                if !wrong_on.is_empty() || !wrong_off.is_empty() {
+                    let _ = tx_done.send(Some(format!("main chain 1..11, fork 3'..12' on block 2 adopted (tip {}): abandoned blocks {:?} are still flagged on-chain, adopted blocks {:?} are not", bc.get_latest_block_id(), wrong_on, wrong_off)));
+                    return;
+                }
+            }
+            // a second node that only ever sees the winning chain
+            let mut t2 = TestManager::default();
+            // (blocks travel the way they do between nodes: local flags such as in_longest_chain do not)
+            let wire = |b: &Block| -> Block { Block::deserialize_from_net(&b.serialize_for_net(BlockType::Full)).unwrap() };
+            let _ = t2.add_block(wire(&genesis)).await;
+            let _ = t2.add_block(wire(&main[0])).await;
+            for b in fork.iter() { let _ = t2.add_block(wire(b)).await; }
+            if t2.blockchain_lock.read().await.get_latest_block_hash() != prev { panic!("setup: the second node did not follow the winning chain"); }
+            let a = ledger_snapshot(&t, 12).await;
+            let b = ledger_snapshot(&t2, 12).await;
+            if std::env::var("VERIF_TRACE").is_ok() { println!("TRACE pruned {:?}; spendable {} vs {}", pruned, a.spendable.len(), b.spendable.len()); }
+            if a.spendable != b.spendable || a.chain != b.chain {
+                let only_a = a.spendable.iter().filter(|k| !b.spendable.contains(k)).count();
+                let only_b = b.spendable.iter().filter(|k| !a.spendable.contains(k)).count();
+                let _ = tx_done.send(Some(format!("main chain 1..11 (blocks {:?} pruned to headers), fork 3'..12' on block 2 adopted: the spendable set differs from a replay of the winning chain — {} output(s) spendable here but not in the replay, {} the other way round; by-height index equal: {}",
+                    pruned, only_a, only_b, a.chain == b.chain)));
+                return;
+            }
+            let _ = tx_done.send(None);
+        });
+    });
+    match rx_done.recv_timeout(std::time::Duration::from_secs(240)) {
+        Ok(None) => {}
+        Ok(Some(w)) => witness(w),
+        Err(_) => panic!("scenario did not finish within 240 s"),
+    }
+}
+
+/// C01 / C02: the type field of a transaction is the sender's (or the block producer's) choice. A full block that
+/// carries an SPV-typed transaction with an output and no inputs must not put that output into the spendable set.
+#[test]
+#[serial_test::serial]
+fn placeholder_typed_transaction_creates_no_output() {
+    let (tx_done, rx_done) = std::sync::mpsc::channel::<Option<String>>();
+    std::thread::spawn(move || {
+        let rt = tokio::runtime::Builder::new_current_thread().enable_all().build().unwrap();
+        rt.block_on(async move {
+            use crate::core::consensus::slip::Slip;
+            let mut t = TestManager::default();
+            t.initialize(100, 200_000_000_000_000).await;
+            let (b1, ts) = { let bc = t.blockchain_lock.read().await; let b = bc.get_latest_block().unwrap(); (b.hash, b.timestamp) };
+            let (pk, sk) = { let w = t.wallet_lock.read().await; (w.public_key, w.private_key) };
+            let mut b2 = t.create_block(b1, ts + 120000, 1, 0, 0, true).await;
+            let mut minted = Transaction::default();
+            minted.transaction_type = TransactionType::SPV;
+            let mut o = Slip::default(); o.public_key = pk; o.amount = 1_000_000; minted.add_to_slip(o);
+            minted.sign(&sk);
+            b2.transactions.push(minted);
+            b2.merkle_root = [0; 32];
+            b2.generate().unwrap();
+            b2.sign(&sk);
+            b2.generate().unwrap();
+            let h2 = b2.hash;
+            let n_tx = b2.transactions.len() as u64;
+            let before = { let bc = t.blockchain_lock.read().await; bc.utxoset.iter().filter(|(_, v)| **v).count() };
+            let _ = t.add_block(b2).await;
+            let bc = t.blockchain_lock.read().await;
+            let accepted = bc.get_latest_block_hash() == h2;
+            let mut probe = Slip::default(); probe.public_key = pk; probe.amount = 1_000_000; probe.block_id = 2; probe.tx_ordinal = n_tx - 1; probe.slip_index = 0;
+            probe.generate_utxoset_key();
+            let present = bc.utxoset.get(&probe.utxoset_key).copied();
+            let after = bc.utxoset.iter().filter(|(_, v)| **v).count();
+            if accepted && present == Some(true) {
+                let _ = tx_done.send(Some(format!("a block carrying an SPV-typed transaction with no inputs and a 1000000-nolan output became the tip and the output is spendable (spendable outputs {} → {})", before, after)));
+                return;
+            }
+            if std::env::var("VERIF_TRACE").is_ok() { println!("TRACE accepted {} output {:?} spendable {} -> {}", accepted, present, before, after); }
+            let _ = tx_done.send(None);
+        });
+    });
+    match rx_done.recv_timeout(std::time::Duration::from_secs(120)) {
+        Ok(None) => {}
+        Ok(Some(w)) => witness(w),
+        Err(_) => { use std::io::Write; let _ = writeln!(std::io::stderr(), "WITNESS: adding a block that carries an SPV-typed transaction with an output did not return (the node aborted)"); panic!("scenario did not finish"); }
+    }
+}
